@@ -81,7 +81,7 @@ fn worker(case: &str, trace: &str) {
     let bps0: Vec<String> = kv["bps"].split(',').filter(|x| !x.is_empty() && *x != "-").map(|b| format!("B{}@", b)).collect();
     let expected_all: Vec<String> = kv.get("entries").map(|e| e.split(',').filter(|x| *x != "-").map(|x| format!("B{}", x)).collect()).unwrap_or_default();
     let plain_ok = kv.get("ok").map(|x| *x == "1").unwrap_or(true);
-    let static_bps = !cmds.iter().any(|c| c.starts_with("add") || c.starts_with("del"));
+    let static_bps = !cmds.iter().any(|c| c.starts_with("add") || c.starts_with("del") || *c == "clr");
     let sh: Shared = Arc::new((Mutex::new(Sched { trace: if trace == "-" { vec![] } else { trace.split(',').map(|s| s.to_string()).collect() }, cursor: 0, passed: vec![], after: vec![], free: false,
         busy_parser: false, busy_ctrl: true, progress: Instant::now(), ctrl_done: false, ctrl_at: String::new(), recv: vec![], rets: vec![], clean: true, early: false, reported: false, bps_view: vec![], run_no: 0, entry_idx: 0, locks: vec![] }), Condvar::new()));
     let sh2 = sh.clone();
@@ -140,6 +140,7 @@ fn worker(case: &str, trace: &str) {
                 if let Some(c) = conts_per_run.last_mut() { *c += 1; }
                 let r = match ctx.cont() { Ok(()) => "cont:ok", Err(pest_debugger::DebuggerError::EofReached) => "cont:eof", Err(_) => "cont:norun" }; sh.0.lock().unwrap().rets.push(r.into()); }
             "recv" => { let e = match &cur_rx { Some(rx) => match rx.recv() { Ok(e) => ev(&e), Err(_) => "closed".into() }, None => "norun".into() }; if let Some(r) = runs.last_mut() { r.push(e.clone()); } sh.0.lock().unwrap().recv.push(e); }
+            "clr" => { ctx.delete_all_breakpoints(); sh.0.lock().unwrap().bps_view.clear(); }
             x if x.starts_with("add") => { ctx.add_breakpoint(format!("r{}", &x[3..])); let n: u32 = x[3..].parse().unwrap_or(0); let mut g = sh.0.lock().unwrap(); if !g.bps_view.contains(&n) { g.bps_view.push(n); } }
             x => { ctx.delete_breakpoint(&format!("r{}", &x[3..])); let n: u32 = x[3..].parse().unwrap_or(0); sh.0.lock().unwrap().bps_view.retain(|b| *b != n); }
         }
@@ -269,7 +270,7 @@ fn main() {
                 let ncmd = rng.range(1, 7);
                 let mut cmds: Vec<String> = vec!["run".into()];
                 let mut pending = 0i32; // events we may safely wait for
-                for _ in 0..ncmd { let c = match rng.below(10) { 0..=2 => "cont".to_string(), 3..=5 => "recv".into(), 6 => "run".into(), 7 => format!("add{}", rng.range(1, 3)), 8 => format!("del{}", rng.range(1, 3)), _ => "cont".into() }; let _ = &mut pending; cmds.push(c); }
+                for _ in 0..ncmd { let c = match rng.below(10) { 0..=2 => "cont".to_string(), 3..=5 => "recv".into(), 6 => "run".into(), 7 => format!("add{}", rng.range(1, 3)), 8 => if rng.chance(1, 2) { format!("del{}", rng.range(1, 3)) } else { "clr".into() }, _ => "cont".into() }; let _ = &mut pending; cmds.push(c); }
                 // `recv` on an empty channel of a finished run would block for ever by itself: the model predicts that as blocked:cmd.recv, which is fine
                 let bits: String = (0..60).map(|_| if rng.chance(1, 2) { '1' } else { '0' }).collect();
                 let cap = if rng.chance(3, 4) { 1 } else { 2 };
@@ -285,8 +286,11 @@ fn main() {
                 ("aa", "r1", "2", "run,recv,cont,recv,run", 1), ("ab", "r1", "2,3", "run,recv,cont,recv,cont,recv", 1), ("a", "r4", "1", "run,recv,del1,add2,cont,recv", 1),
                 ("aa", "r1", "2", "run,recv,cont,run,recv", 2), ("b", "r1", "3", "run,cont,cont,recv", 1), ("a", "r1", "1,2", "run,recv,run,recv,cont,recv", 1),
                 ("", "r2", "2", "run,recv,cont,recv,run,recv", 1), ("aa", "r2", "-", "run,add2,run,recv", 1), ("ab", "r4", "3", "run,recv,run,run,recv", 1),
+                ("aa", "r1", "2", "run,recv,clr,cont,recv", 1), ("aab", "r1", "2", "run,recv,clr,add3,cont,recv,cont,recv", 1),
             ];
-            let small = if thorough { &small[..] } else { &small[..4] };
+            // (the two histories with `clr` are part of the quick tier too: a set that is cleared while the thread is stopped)
+            let small_quick: Vec<(&str, &str, &str, &str, usize)> = small[..4].iter().cloned().chain(small[small.len() - 2..].iter().cloned()).collect();
+            let small = if thorough { &small[..] } else { &small_quick[..] };
             let mut sys_lines = vec![];
             for (input, start, bps, cmds, cap) in small {
                 let (entries, ok, aborts) = entries_of(start, input);
